@@ -20,10 +20,35 @@ import (
 	"verif/internal/vk"
 )
 
-const (
-	VerifDir = "/verif"
-	RepoDir  = "/repo"
-)
+const VerifDir = "/verif"
+
+// RepoDir is the tree under test. It is always /repo for registered checks;
+// VERIF_REPO lets a developer point a run at a scratch worktree (mutation
+// testing) without touching /repo.
+var RepoDir = "/repo"
+
+func init() {
+	if v := os.Getenv("VERIF_REPO"); v != "" {
+		RepoDir = v
+	}
+}
+
+// modfileArgs returns the -modfile argument redirecting the wuffs module to
+// RepoDir when it is not /repo.
+func (r *Run) modfileArgs() []string {
+	if RepoDir == "/repo" {
+		return nil
+	}
+	alt := filepath.Join(r.Scratch, "go.alt.mod")
+	if _, err := os.Stat(alt); err != nil {
+		b, _ := os.ReadFile(filepath.Join(VerifDir, "go.mod"))
+		s := strings.Replace(string(b), "=> /repo", "=> "+RepoDir, 1)
+		os.WriteFile(alt, []byte(s), 0o644)
+		sum, _ := os.ReadFile(filepath.Join(VerifDir, "go.sum"))
+		os.WriteFile(filepath.Join(r.Scratch, "go.alt.sum"), sum, 0o644)
+	}
+	return []string{"-modfile=" + alt}
+}
 
 // Run is the state of one vcheck invocation.
 type Run struct {
@@ -106,6 +131,7 @@ func (r *Run) BuildGo(pkg, name string, o BuildOpts) (string, error) {
 	if o.Race {
 		args = append(args, "-race")
 	}
+	args = append(args, r.modfileArgs()...)
 	args = append(args, "-o", out, pkg)
 	cmd := exec.Command("go", args...)
 	cmd.Dir = VerifDir
